@@ -35,7 +35,7 @@ import requests
 from PIL import Image, UnidentifiedImageError
 
 from .. import get_cell_ratio
-from .._ctlseqs import CURSOR_DOWN, CURSOR_UP, HIDE_CURSOR, SGR_DEFAULT, SHOW_CURSOR
+from .._ctlseqs import CURSOR_DOWN, HIDE_CURSOR, SGR_DEFAULT, SHOW_CURSOR, cursor_up
 from ..exceptions import (
     InvalidSizeError,
     RenderError,
@@ -1329,8 +1329,9 @@ class BaseImage(metaclass=ImageMeta):
         duration = self._frame_duration
         image_it = ImageIterator(self, repeat, "", cached)
         image_it._animator = image_it._animate(img, alpha, fmt, style_args)
-        cursor_up = CURSOR_UP % (lines - 1)
-        cursor_down = CURSOR_DOWN % lines
+        # NOTE: `CURSOR_UP % 0` would move the cursor up by one line
+        to_first_line = cursor_up(lines - 1)
+        interrupted = False
 
         try:
             print(next(image_it._animator), end="", flush=True)  # First frame
@@ -1345,22 +1346,26 @@ class BaseImage(metaclass=ImageMeta):
                 # move cursor up to the beginning of the first line of the image
                 # and print the new current frame.
                 self._clear_frame()
-                print("\r", cursor_up, frame, sep="", end="", flush=True)
+                print("\r", to_first_line, frame, sep="", end="", flush=True)
 
                 # Render next frame during current frame's duration
                 start = time.time()
         except KeyboardInterrupt:
+            interrupted = True
             self._handle_interrupted_draw()
         except Exception:
+            interrupted = True
             self._handle_interrupted_draw()
             raise
         finally:
             image_it.close()
             self._close_image(img)
             self._seek_position = prev_seek_pos
-            # Move the cursor to the last line of the image to prevent "overlaid"
-            # output in the terminal
-            print(cursor_down, end="")
+            # After a complete frame, the cursor is already on the last line of the
+            # image. If a frame was interrupted, move the cursor past the image to
+            # prevent "overlaid" output in the terminal.
+            if interrupted:
+                print(CURSOR_DOWN % lines, end="")
 
     def _format_render(
         self,
